@@ -91,7 +91,8 @@ VERIF_FAIL_MSGS = ('postcondition not satisfied', 'precondition not satisfied', 
                    'index out of bounds', 'unreachable', 'could not prove termination',
                    'recommendation not met', 'possible truncation', 'assertion not satisfied',
                    'failed precondition', 'cannot show invariant', 'constructed value may fail to meet its declared type invariant',
-                   'may be out of range')
+                   'may be out of range', 'post-condition of closure', 'pre-condition of closure', 'unable to prove',
+                   'not satisfied', 'call_requires', 'call_ensures')
 RESOURCE_MSGS = ('resource limit', 'rlimit', 'timed out', 'timeout', 'solver canceled')
 
 
